@@ -691,7 +691,8 @@ def js_value(u, label, t):
             f = {"i": {"k": "none"} if absent else js_value(u, label + ".i", ["struct", "St1", [None]]), "k": {"k": "slice", "v": 7}}
         else:
             f = {"s": js_value(u, label + ".s", ["struct", "St2", [None, None]]), "t": js_value(u, label + ".t", ["struct", "St1", [None]])}
-        return {"k": "struct", "ty": name, "fields": f}
+        # (top-level arguments p1, p3 are handed over as plain objects, the declared `<Type>_obj`; the others as class instances)
+        return {"k": "struct", "ty": name, "fields": f, "plain": "." not in label and label[-1:] in "13579"}
     raise ValueError(t)
 
 
